@@ -180,7 +180,10 @@ def stack_soup(rng, n):
     shuffle = ["dup", "dup2", "swap", "pop", "select", "dig 1", "dig 2", "dig 3", "cover 1", "cover 2", "cover 3", "uncover 1", "uncover 2",
                "uncover 3", "bury 1", "bury 2", "popn 1", "popn 2", "popn 3", "popn 4", "dupn 1", "dupn 2", "dupn 3", "pushints 1 2 3", "mulw", "addw",
                "divmodw", "expw", "app_global_get_ex", "asset_holding_get AssetBalance", "frame_dig 0", "frame_bury 0", "proto 2 1",
-               "int 1", "int 2", "txn RekeyTo", "global ZeroAddress", "txn Fee", "==", "!=", "&&", "||", "!", "+", "-", "<", "assert", "load 0", "store 0"]
+               "int 1", "int 2", "txn RekeyTo", "global ZeroAddress", "txn Fee", "==", "!=", "&&", "||", "!", "+", "-", "<", "assert", "load 0", "store 0",
+               # boundary immediates of the deep-stack opcodes (0 is valid for all of these) and list immediates of length 1 / with repeats
+               "dig 0", "cover 0", "uncover 0", "popn 0", "dupn 0", "dupn 0", "pushints 7", "pushbytess 0x01 0x02", "replace 0", "replace",
+               "extract 0 0", "substring 0 0", "gloads 0", "gload 0 0"]
     out = ["#pragma version 8"]
     for _ in range(n):
         if rng.random() < 0.7:
